@@ -19,7 +19,7 @@ fn layout_container(attrs: &[String], salt: &str) -> String {
     let rest: Vec<String> = attrs.iter().filter(|a| !is_structural(a)).cloned().collect();
     let mut out = String::new();
     let mut rng = crate::rng::Rng::new(crate::rng::mix(crate::rng::hash_str(salt), 0xC0A7, 0));
-    if rng.chance(1, 2) && !pinned.is_empty() && !rest.is_empty() {
+    if (rng.chance(1, 2) || salt.ends_with("One")) && !pinned.is_empty() && !rest.is_empty() {
         // everything in one attribute (the silent ones after the structural ones, in a seeded order)
         let mut all = pinned.clone();
         let mut r = rest.clone();
